@@ -148,6 +148,9 @@ Parse == /\ ParseT
                   to |-> [exp |-> Exp(case),
                           cls |-> IF Len(case.names) = 1 THEN "single-record" ELSE "multi-record",
                           lines |-> FileLines(case),
+                          \* source representation (see SeqFormats.tla): lines a caller consumes from an open text
+                          \* handle before handing it to a parser; the handle then stands for the remaining lines
+                          preamble |-> << <<"#", SP, "c", "1">>, <<"#", SP, "c", "2">> >>,
                           model |-> IF m = Ok(Exp(case)) THEN [same |-> TRUE] ELSE [same |-> FALSE, res |-> m]]])
 Next == Pick \/ Parse
 Spec == Init /\ [][Next]_vars
